@@ -298,12 +298,21 @@ func (g *G) DHCP() DHCPMsg {
 // (Length = number of id bytes), and the IEEE 802.1AB wire form.
 type LLDPMsg struct {
 	Val  *protocol.LLDP
-	Wire []byte // 802.1AB: TLV length covers subtype + id
+	Wire []byte // 802.1AB: TLV length covers subtype + id (used as a case fingerprint only; ids over 510 bytes do not fit that form)
 }
 
 func (g *G) LLDP() LLDPMsg {
-	cid := g.Bytes("lldp_chassis", g.Int("lldp_chlen", 1, 30))
-	pid := g.Bytes("lldp_port", g.Int("lldp_polen", 1, 30))
+	// id lengths: short ones mostly; sometimes the values around the 8-bit boundary of the 9-bit TLV length
+	// (the library stores the id length in that field, so every id of up to 511 bytes is within its width)
+	idLen := func(label string) int {
+		if g.Chance(label+"_long", 1, 5) {
+			g.Label("lldp_id_length_needs_bit8_or_near")
+			return []int{254, 255, 256, 257, 300, 384, 510, 511}[g.Pick(label+"_longlen", 8)]
+		}
+		return g.Int(label, 1, 30)
+	}
+	cid := g.Bytes("lldp_chassis", idLen("lldp_chlen"))
+	pid := g.Bytes("lldp_port", idLen("lldp_polen"))
 	cs, ps := uint8(g.Int("lldp_chsub", 1, 7)), uint8(g.Int("lldp_posub", 1, 7))
 	ttl := g.U16("lldp_ttl")
 	l := &protocol.LLDP{
